@@ -34,6 +34,13 @@ def check(ctx):
         if ctx.quick and lazy and (ens != "scan2" or rs not in (1, 3)):
             continue  # quick: the lazy path shares the index computation; sampled on one ensemble kind and two samplings
         cases.append({"nr": nr, "na": na, "rs": rs, "ro": ro, "ao": ao, "ens": ens, "lazy": lazy})
+    # measurements as the library itself produces them: DiffractionPatterns.polar_binning / radial_binning with a non-zero inner angle
+    for inner, outer, nr, na, rot, lazy in itertools.product((0.0, 10.0, 20.0), (40.0, 60.0), (1, 2, 4), (1, 3), (0.0, 0.4), (False, True)):
+        if ctx.quick and lazy and (nr != 4 or na != 3):
+            continue
+        cases.append({"via": "polar_binning", "inner": inner, "outer": outer, "nr": nr, "na": na, "rot": rot, "lazy": lazy})
+    for inner, outer, step in itertools.product((0.0, 10.0, 20.0), (40.0, 60.0), (5.0, 10.0)):
+        cases.append({"via": "radial_binning", "inner": inner, "outer": outer, "step": step, "lazy": False})
     ctx.run(cases, "run_case", rule="one case per (bins, sampling, offsets, ensemble, lazy); inside all aligned limit pairs and partitions; "
             "non-trivial = more than one bin")
 
@@ -60,7 +67,53 @@ def make(case):
     return pm, arr
 
 
+def run_via(case):
+    """the measurement comes from binning a diffraction pattern; its bins must sit where inner / outer / nbins say, so that edge-aligned
+    limits select exactly the bins of its own array"""
+    import abtem
+    from abtem.core.axes import ScanAxis
+    from mc.compare import rng
+
+    viol, tr = [], 0
+    r = rng("c13via")
+    pat = r.uniform(0.1, 1.0, size=(2, 3, 33, 33)).astype(np.float32)
+    dp = abtem.measurements.DiffractionPatterns(pat, sampling=0.12, ensemble_axes_metadata=[ScanAxis(label="x", sampling=0.5, units="Å"), ScanAxis(label="y", sampling=0.4, units="Å")],
+                                                metadata={"energy": 100e3})
+    if case["lazy"]:
+        dp = dp.ensure_lazy()
+    inner, outer = case["inner"], case["outer"]
+    if case["via"] == "polar_binning":
+        pm = dp.polar_binning(nbins_radial=case["nr"], nbins_azimuthal=case["na"], inner=inner, outer=outer, rotation=case["rot"])
+        nr = case["nr"]
+    else:
+        pm = dp.radial_binning(step_size=case["step"], inner=inner, outer=outer)
+        nr = None
+    pmc = pm.compute() if getattr(pm, "is_lazy", False) else pm
+    arr = np.asarray(pmc.array, dtype=np.float64)
+    nr = arr.shape[-2]
+    w = (outer - inner) / nr if case["via"] == "polar_binning" else case["step"]
+    for i in range(nr):
+        for j in range(i + 1, nr + 1):
+            rl = (inner + i * w, inner + j * w)
+            out = pm.integrate(radial_limits=rl)
+            out = out.compute() if getattr(out, "is_lazy", False) else out
+            got = np.asarray(out.array, dtype=np.float64)
+            tr += 1
+            want = arr[..., i:j, :].sum(axis=(-2, -1))
+            if got.shape != want.shape or not np.allclose(got, want, rtol=1e-6, atol=1e-9):
+                if sum(1 for v in viol if v["key"].startswith("via")) < 2:
+                    viol.append({"key": "via-%s/bins-radial" % case["via"], "msg": "integrate(radial_limits=%r) of a measurement binned with inner=%r outer=%r (%d radial bins of %r mrad): got %r, its own bins %d:%d sum to %r (%s)" % (
+                        rl, inner, outer, nr, w, got.ravel()[:3].round(3).tolist(), i, j, want.ravel()[:3].round(3).tolist(), case)})
+    total = pm.integrate()
+    total = total.compute() if getattr(total, "is_lazy", False) else total
+    if not np.allclose(np.asarray(total.array, dtype=np.float64), arr.sum(axis=(-2, -1)), rtol=1e-6):
+        viol.append({"key": "via-%s/total" % case["via"], "msg": "integrate() differs from the sum of all bins (%s)" % (case,)})
+    return {"viol": viol, "obs": "via", "nt": nr > 1, "tr": tr + 1, "ref": tr + 1, "st": tr + 1}
+
+
 def run_case(case):
+    if case.get("via"):
+        return run_via(case)
     viol, tr = [], 0
     pm, arr = make(case)
     nr, na = case["nr"], case["na"]
